@@ -25,7 +25,10 @@ let show_res (c : nat acall) (r : nat out) : string =
 let parse_call (name : string) (a : int list) : nat acall option =
   let a0 () = i2n (List.nth a 0) in
   match name with
-  | "set" -> Some (ASet (a0 ())) | "get" -> Some AGet | "write" -> Some AWrite | "read" -> Some ARead
+  | "set" -> Some (ASet (a0 ())) | "get" -> Some AGet
+  | "set_if_not_eq" -> Some (AUpd (WSetIfNotEq (a0 ()))) | "set_if_hash_not_eq" -> Some (AUpd (WSetIfHashNotEq (a0 ())))
+  | "take" -> Some (AUpd WTake) | "update" -> Some (AUpd (WUpdate (a0 ())))
+  | "update_if" -> Some (AUpd (WUpdateIf (a0 (), List.nth a 1 = 1))) | "write" -> Some AWrite | "read" -> Some ARead
   | "next_now" -> Some (ANextNow (a0 ())) | "next" -> Some (ANext (a0 ())) | "next_ref" -> Some (ANextRef (a0 ()))
   | "stream" -> Some (AStreamNext (a0 ()))
   | _ -> None
